@@ -13,7 +13,7 @@ from __future__ import annotations
 
 import itertools
 
-from harness.common import (Ctx, DiffSpec, coq_list, coq_nat, coq_nats, coq_Z, differential,
+from harness.common import (Ctx, DiffSpec, coq_list, coq_nat, coq_nats, coq_Z, differential, replay_findings,
                             sweep_differential)
 
 META = {
@@ -343,6 +343,7 @@ def random_ops(rng, ops, n):
 def run(ctx: Ctx):
     thorough = ctx.tier == "thorough"
     rng = ctx.rng
+    replay_findings(ctx, "scoped", sd_impl, sd_holds)
     # ---- exhaustive sweeps
     wl_pre, wl_tail = (2, 5) if thorough else (1, 4)
     sweep_differential(
